@@ -195,7 +195,8 @@ CONTRACTS = [
     ),
     # ------------------------------------------------------------------ C16: number_to_bit
     dict(name="dsw.operation.number_to_bit", abstract=True,
-         dispatch={"param": "decimal_number", "str": "dsw.operation.number_to_bit#str", "int": "dsw.operation.number_to_bit#int"}),
+         dispatch={"param": "decimal_number", "str": "dsw.operation.number_to_bit#str", "int": "dsw.operation.number_to_bit#int",
+                   "zero": "dsw.operation.number_to_bit#int"}),
     dict(
         name="dsw.operation.number_to_bit#str", function="dsw.operation.number_to_bit", variant_of="dsw.operation.number_to_bit", n_loops=2,
         params={"decimal_number": "str", "bit_length": "nat"},
@@ -303,7 +304,8 @@ CONTRACTS = [
         loops={2: dict(binds="nucleotide_values", invariant={"horner": "decimal_number == dnav(dna_sequence, 0, _i)"})},
     ),
     dict(name="dsw.operation.number_to_dna", abstract=True,
-         dispatch={"param": "decimal_number", "str": "dsw.operation.number_to_dna#str", "int": "dsw.operation.number_to_dna#int"}),
+         dispatch={"param": "decimal_number", "str": "dsw.operation.number_to_dna#str", "int": "dsw.operation.number_to_dna#int",
+                   "zero": "dsw.operation.number_to_dna#int"}),
     dict(
         name="dsw.operation.number_to_dna#str", function="dsw.operation.number_to_dna", variant_of="dsw.operation.number_to_dna", n_loops=2,
         params={"decimal_number": "str", "dna_length": "nat"},
